@@ -30,9 +30,14 @@ BigSets(kind) ==
   ELSE {}
 Act(op, arg, new) == [op |-> op, arg |-> arg, new |-> new]
 None == T("none", 0)
-Init == \E kind \in KINDS : \E S \in (SUBSET Universe(kind)) \cup BigSets(kind) :
+\* DOCUMENT ORDER of the pre-existing identifiers (the order of the p:sldId / Relationship / shape elements, of the parts in the
+\* package walk): the allocators are functions of the SET, so the result must not depend on it.  "asc" lays the identifiers down in
+\* TLC's set order, "desc" in the reverse (the last element then holds a small number whose successor is taken).
+Ordered(S, ord) == IF ord = "desc" THEN Reverse(SetToSeq(S)) ELSE SetToSeq(S)
+Init == \E kind \in KINDS : \E S \in (SUBSET Universe(kind)) \cup BigSets(kind) : \E ord \in {"asc", "desc"} :
+          /\ (ord = "desc") => (Cardinality(S) >= 2 /\ S \notin BigSets(kind))
           /\ st = [kind |-> kind, used |-> S \cup Fixed(kind), turbo |-> 0 - 1, nrel |-> 0]
-          /\ hist = <<[op |-> "init", kind |-> kind, used |-> SetToSeq(S \cup Fixed(kind))]>>
+          /\ hist = <<[op |-> "init", kind |-> kind, ord |-> ord, used |-> Ordered(S \cup Fixed(kind), ord)]>>
 More == Len(hist) <= DEPTH
 
 DoAlloc(op) ==
